@@ -267,7 +267,7 @@ func (g *genState) genRoute(s *Sim, p *MPayload, denom string) {
 		route = 2
 	}
 	if route == 1 {
-		if _, ok := s.Env.HypTokens[denom]; !ok {
+		if _, ok := s.Env.HypTokens[denom]; !ok && denom != DenomOther {
 			route = 2
 		}
 	}
@@ -282,11 +282,23 @@ func (g *genState) genRoute(s *Sim, p *MPayload, denom string) {
 		p.PTNull = true
 	case 1:
 		p.Proto = "PROTOCOL_HYPERLANE"
-		p.Token = s.Env.HypTokens[denom].Bytes()
 		p.Domain = HypDomains[r.Intn(len(HypDomains))]
 		p.Recipient32 = g.rcptBytes()
-		p.GasLimit, p.MaxFeeDenom, p.MaxFeeAmt = "0", denom, "0"
 		p.PTNull = true
+		if denom == DenomOther {
+			// the token behind the mailbox with an interchain gas paymaster: the fee (in stake) is charged to the
+			// sender of the remote transfer, i.e. the orbiter account
+			p.Token = s.Env.HypIGPToken.Bytes()
+			p.GasLimit, p.MaxFeeDenom, p.MaxFeeAmt = []string{"0", "0", "70000"}[r.Intn(3)], DenomStake, []string{"100000", "51000", "50999", "1000000"}[r.Intn(4)]
+		} else {
+			p.Token = s.Env.HypTokens[denom].Bytes()
+			p.GasLimit, p.MaxFeeDenom, p.MaxFeeAmt = "0", denom, "0"
+			if r.Intn(4) == 0 {
+				// the hooks of this mailbox charge nothing, so any cap on the fee is immaterial
+				p.GasLimit = []string{"0", "1", "200000"}[r.Intn(3)]
+				p.MaxFeeDenom, p.MaxFeeAmt = []string{DenomStake, DenomOther, denom}[r.Intn(3)], []string{"1", "5", "1000000"}[r.Intn(3)]
+			}
+		}
 	default:
 		p.Proto = "PROTOCOL_INTERNAL"
 		switch r.Intn(8) {
@@ -734,6 +746,9 @@ func (g *genState) genSend(s *Sim) Op {
 	}
 	if r.Bool(g.prof.TimeoutP) {
 		op.TO = 1 + r.Intn(6)
+		if r.Intn(3) == 0 {
+			op.TO, op.TOS = 0, []int{8, 30, 600, 7200}[r.Intn(4)] // by timestamp: clock jumps pass it
+		}
 	}
 	p := &MPayload{}
 	g.genRoute(s, p, op.Denom)
@@ -922,6 +937,25 @@ func (g *genState) genByz(s *Sim) Op {
 		}
 		if r.Intn(8) == 0 {
 			d["extra"] = 1
+		}
+		escaped := ""
+		if r.Intn(6) == 0 {
+			// the same receiver string written with JSON escapes: identical after decoding, different as raw bytes
+			k := r.Intn(len(orb))
+			escaped = orb[:k] + fmt.Sprintf("\\u%04x", orb[k]) + orb[k+1:]
+			d["denom"], d["amount"] = prefix+DenomUSDC, fmt.Sprint(1000+r.Intn(100000))
+		}
+		defer func(esc string) {
+			if esc != "" {
+				data = []byte(strings.Replace(string(data), `"receiver":"`+orb+`"`, `"receiver":"`+esc+`"`, 1))
+				op.Raw = base64.StdEncoding.EncodeToString(data)
+			}
+		}(escaped)
+		if r.Intn(10) == 0 {
+			// a memo beyond what ibc-go's MsgTransfer would let a user send (only the sending chain bounds it)
+			q := *p
+			q.Passthrough, q.PTNull = r.Bytes(24000+r.Intn(40000)), false
+			d["memo"], d["denom"], d["amount"] = q.Canonical(), prefix+DenomUSDC, "1000"
 		}
 		data, _ = json.Marshal(d)
 	}
@@ -1172,6 +1206,9 @@ func (g *genState) genDust(s *Sim) Op {
 	}
 	op.Denom = []string{DenomUSDC, DenomUSDC, DenomOther, DenomStake}[r.Intn(4)]
 	op.Amt = []string{"1", "7", "1000", "123456789"}[r.Intn(4)]
+	if op.Denom == DenomStake && r.Intn(2) == 0 {
+		op.Amt = []string{"51000", "60000", "200000"}[r.Intn(3)]
+	}
 	return op
 }
 
@@ -1214,7 +1251,7 @@ func (g *genState) Next(s *Sim) Op {
 				return Op{ID: g.id(), K: "ack", Ref: c[r.Intn(len(c))].Origin, Rel: r.Intn(NumRelayers - 2)}
 			}
 		case "timeout":
-			c := g.inflight(s, func(p *Pkt) bool { return p.State == PktInFlight && p.TOHeight != 0 && uint64(s.N.Height) >= p.TOHeight })
+			c := g.inflight(s, func(p *Pkt) bool { return p.State == PktInFlight && s.timedOut(p) })
 			if len(c) > 0 {
 				return Op{ID: g.id(), K: "timeout", Ref: c[r.Intn(len(c))].Origin, Rel: r.Intn(NumRelayers - 2)}
 			}
